@@ -20,8 +20,10 @@ META = {
                   'ending in the sentinel); tokenizer_writes_inside [1,strlen); args_wellformed (1<=argc<=4, argv offsets inside the line, strings end inside it, '
                   'argv[argc..3] empty); dispatch_exact (any registration order of injectively named commands: find returns the command of exactly that name, else '
                   'the sentinel); register_full_clean (-1 and table unchanged exactly when 31 names are in, otherwise sorted insertion; 30th user registration fails); '
+                  'register_keeps_sorted + dispatch_first_registered (ANY sequence of registrations - any names, duplicates, beyond capacity: table stays sentinel-terminated, named entries in non-decreasing strcmp order, a permutation of echo, help and exactly the first 29 calls; find_command = linear search in order of registration, so of two commands with one name the first registered is found); '
                   'line_is_edit (texts tokenised = lines of the edit-stack spec over the characters consumed, for NUL-free input, every delivery mechanism); '
-                  'fourth_takes_rest (O1); process_delivers_all, putchar_delivers_if_drained (<= 15 outstanding), eval_executes_once_and_completes (any NUL-free '
+                  'fourth_takes_rest (O1); putchar_delivers_exactly_accepted (bursts of any length: consumed = ring + exactly the characters for which ringbuf_put returned true = the first 15-fill, the rest dropped by the ring) and process_never_drops (any sequence of console_process calls); '
+                  'process_delivers_all, putchar_delivers_if_drained (<= 15 outstanding), eval_executes_once_and_completes (any NUL-free '
                   'string < 65536, completes within the bound, every character consumed once in order) from any reachable state in which the console is not inside a command. '
                   'tokenize_roundtrip at the full strength DESIGN.md words it (quoted strings may start with the other quote character; holds since fix 15aaa9d of D11 - '
                   'the old loop is kept as tokStepOld with the kernel-checked witness d11_old_tokenizer_mangles_nested_quote: cap "\'a" gave a"). '
@@ -32,14 +34,15 @@ META = {
                   'commands are modelled as scripts (capture, optional scribble over the scratch union, yield k times, exit/fail) plus the built-ins echo/help/unknown '
                   '- commands that read the ring or keep pointers into scratch are outside the model; libc (strlen, strcmp, isspace for bytes < 128, memset, stdio) '
                   'is modelled, not verified; the ring buffer is a sequential bounded FIFO here (its lock-freedom is C05) and the scheduler is "run console_run until it '
-                  'waits" (C01); the sorted order of the table is checked by the correspondence run and the oracle, not by a theorem; output text is compared exactly with '
-                  'the model but is not part of any theorem. Sampling only (no theorem): behaviour on overflowing bursts (> 15 characters outstanding), where the ring drops input.',
+                  'waits" (C01); output text is compared exactly with '
+                  'the model but is not part of any theorem.',
     'design_ref': '§6 C15, §5 D7 D8 D11 O1',
 }
 REQUIRED = ['Librfn.C15.' + t for t in (
     'layout_ok', 'buffer_safe', 'tokenizer_writes_inside', 'args_wellformed', 'dispatch_exact', 'register_full_clean',
     'line_is_edit', 'completed_line_is_edit', 'fourth_takes_rest', 'tokenize_roundtrip', 'd11_old_tokenizer_mangles_nested_quote',
-    'unquoted_simple_split', 'tokens_assemble', 'process_delivers_all', 'putchar_delivers_if_drained', 'eval_executes_once_and_completes')]
+    'unquoted_simple_split', 'tokens_assemble', 'register_keeps_sorted', 'dispatch_first_registered',
+    'putchar_delivers_exactly_accepted', 'process_never_drops', 'process_delivers_all', 'putchar_delivers_if_drained', 'eval_executes_once_and_completes')]
 
 R = vlib.REPO
 BL = ' \t'
@@ -147,7 +150,8 @@ def parse_domain(L):
 class Spec:
     """abstract console: pending FIFO (15), edit stack, association list of commands"""
     def __init__(self, cap=32):
-        self.table = {}            # name -> (id, k, fail, dirty)
+        self.table = {}            # name -> (id, k, fail, dirty) of the FIRST command registered under that name
+        self.names = []            # every accepted name, duplicates included
         self.nreg = 3              # entries incl. echo, help and the sentinel
         self.cap = cap
         self.next_id = 0
@@ -253,12 +257,12 @@ def _spec_check(sp, h, groups):
                 return (k, 'silent', None)
         elif w[0] == 'reg':
             name = unhx(w[1]); cid = sp.next_id; sp.next_id += 1
-            names_before = sorted(list(sp.table) + list(BUILTIN))
             if sp.nreg >= sp.cap:
-                exp_rc, names = -1, names_before
+                exp_rc = -1
             else:
-                exp_rc = 0; sp.table[name] = (cid, int(w[2]), int(w[3]), int(w[4])); sp.nreg += 1
-                names = sorted(list(sp.table) + list(BUILTIN))
+                exp_rc = 0; sp.nreg += 1; sp.names.append(name)
+                sp.table.setdefault(name, (cid, int(w[2]), int(w[3]), int(w[4])))     # a duplicate is stored but never found
+            names = sorted(sp.names + list(BUILTIN), key=lambda x: x.encode('latin-1'))
             exp = f'reg {exp_rc} ' + ','.join([hx(x) for x in names] + ['-'])
             if g != [exp]:
                 return (k, f'registration: expected {exp!r} observed {g!r}', None)
@@ -324,8 +328,8 @@ def valid(h):
             if len(w) != 5:
                 return False
             nm = unhx(w[1])
-            if not nm or nm in names or any(not (33 <= ord(c) <= 126) for c in nm):
-                return False
+            if not nm or nm in BUILTIN or any(not (33 <= ord(c) <= 126) for c in nm):
+                return False          # (duplicates among user names are in scope: the first registered is the one found)
             names.add(nm)
         elif w[0] in ('proc', 'put', 'eval'):
             if len(w) > 2 or any(not ok_char(c) for c in op_bytes(l)):
@@ -542,12 +546,16 @@ def gen_table(rng, cap):
             if nm in pool:
                 pool.remove(nm); pool.insert(rng.below(min(len(pool), max(n, 1)) + 1) if n else 0, nm)
     ops, names = [], []
-    for i, nm in enumerate(pool[:n]):
+    regs = pool[:n]
+    if regs and rng.chance(1, 3):               # duplicate names: both are stored, the first registered is found
+        for _ in range(rng.range(1, 3)):
+            regs.insert(rng.below(len(regs) + 1), rng.choice(regs))
+    for i, nm in enumerate(regs):
         k = rng.choice([0, 0, 0, 1, 2, 3, 7])
         f = 1 if rng.chance(1, 6) else 0
         d = 1 if rng.chance(1, 5) else 0
         ops.append(f'reg {hx(nm)} {k} {f} {d}')
-        if i < room:
+        if i < room and nm not in names:
             names.append(nm)
     return ops, names
 
